@@ -423,4 +423,79 @@ def check_c14(tier, seed, wd):
         shutil.rmtree(d, ignore_errors=True)
     return ctx.finish()
 
-STEPS = {'c04': check_c04, 'c14': check_c14, 'c15': check_c15}
+# ------------------------------------------------------------------ C13
+def build_sched():
+    srcs = [os.path.join(core.REPO, 'programs', f) for f in PROG_SRCS] + sorted(glob.glob(os.path.join(core.REPO, 'lib', '*.c'))) + [os.path.join(core.HARN, 'sched.c')]
+    return core.build_harness('lz4sched', srcs, ['-O2', '-g', '-DXXH_NAMESPACE=LZ4_', '-DLZ4IO_MULTITHREAD=1', '-include', os.path.join(core.HARN, 'vs_sched.h')], 'gcc', ['-pthread'])
+
+def build_tsan():
+    srcs = [os.path.join(core.REPO, 'programs', f) for f in PROG_SRCS] + sorted(glob.glob(os.path.join(core.REPO, 'lib', '*.c')))
+    return core.build_harness('lz4tsan', srcs, ['-O1', '-g', '-DXXH_NAMESPACE=LZ4_', '-DLZ4IO_MULTITHREAD=1', '-fsanitize=thread'], 'clang', ['-pthread'])
+
+def check_c13(tier, seed, wd):
+    """the REAL threadpool.c / lz4io.c pipelines under a deterministic scheduler: every scheduling decision (next thread, which waiter a
+    signal wakes, spurious wake-ups) is drawn from the seed or from an adversarial policy; outputs must equal the sequential result."""
+    import re
+    ctx = Ctx('C13', tier, seed, wd); rng = ctx.rng
+    B = builds(ctx, ['st', 'mt'])
+    ok, sched, err = build_sched()
+    if not B or not ok:
+        if not ok: ctx.rr.errors.append('scheduler build failed against the current tree: ' + err[-300:])
+        return ctx.finish()
+    MB = 1 << 20
+    files = {}
+    for name, n in (('c4p', 13 * MB + 200000), ('c2x', 8 * MB), ('c1p', 4 * MB + 1), ('c5', 17 * MB + 5)):
+        data = gen_content(rng, n, 'lz' if name != 'c2x' else 'text'); p = os.path.join(wd, name + '.dat'); write_file(p, data); files[name] = (p, data)
+    refs = {}
+    def ref(name, opts):
+        key = (name, tuple(opts))
+        if key not in refs:
+            rc, out, err = run(B['mt'], list(opts) + ['-T1', '-c', files[name][0]]); ctx.calls += 1
+            refs[key] = out if rc == 0 else None
+        return refs[key]
+    nruns = 160 if ctx.thorough else 36
+    for i in range(nruns):
+        name = rng.choice(['c4p', 'c2x', 'c1p', 'c5'] if i % 3 else ['c4p', 'c5'])
+        policy = rng.choice(['random', 'random', 'lifo', 'fifo', 'starve1', 'starve2', 'starve0'])
+        workers = rng.choice([1, 2, 3, 4, 8])
+        op = rng.choice(['c', 'c', 'cl', 'd', 'dl', 'cBD'])
+        env = {'VS_SEED': str(seed * 1000 + i), 'VS_POLICY': policy, 'VS_SPURIOUS': str(rng.choice([0, 0, 10, 50]))}
+        path, data = files[name]
+        outp = os.path.join(wd, 'sched.out')
+        if os.path.exists(outp): os.unlink(outp)
+        if op in ('c', 'cl', 'cBD'):
+            opts = {'c': ['-1'], 'cl': ['-l'], 'cBD': ['-1', '-BD', '-B4']}[op]
+            expect = ref(name, opts)
+            rc, out, err = run(sched, opts + ['-T%d' % workers, '-f', path, outp], env=env, timeout=300)
+        else:
+            opts = ['-1'] if op == 'd' else ['-l']
+            arch = ref(name, opts); a = os.path.join(wd, 'sched.in.lz4'); write_file(a, arch or b''); expect = data
+            rc, out, err = run(sched, ['-d', '-T%d' % workers, '-f', a, outp], env=env, timeout=300)
+        ctx.calls += 1; ctx.stat('sched_runs'); ctx.stat('policy.' + policy); ctx.stat('op.' + op)
+        e = err.decode(errors='replace'); m = re.search(r'VS_SCHED: steps=(\d+) switches=(\d+) threads=(\d+) policy=\d+ selfpushblocks=(\d+) mixed=(\d+) spurious=(\d+)', e)
+        desc = 'op=%s file=%s(%d bytes) workers=%d policy=%s seed=%s spurious=%s rc=%d' % (op, name, len(data), workers, policy, env['VS_SEED'], env['VS_SPURIOUS'], rc)
+        got = open(outp, 'rb').read() if os.path.exists(outp) else b''
+        if rc == 97: ctx.fail('sched_deadlock', desc + ' ' + e[-300:].replace('\n', ' '))
+        elif rc == 124: ctx.fail('sched_no_termination', desc)
+        elif rc != 0: ctx.fail('sched_exit_nonzero', desc + ' ' + e[-200:].replace('\n', ' '))
+        elif expect is None or got != expect: ctx.fail('sched_output_differs_from_sequential', desc + ' got=%d want=%s' % (len(got), len(expect) if expect is not None else None))
+        if m:
+            ctx.stat('scheduling_points', int(m.group(1))); ctx.stat('context_switches', int(m.group(2))); ctx.stat('spurious_wakeups', int(m.group(6)))
+            if int(m.group(4)): ctx.fail('pool_self_push_blocked', desc + ' selfpushblocks=%s (Lean theorem Pool.push_never_blocks)' % m.group(4))
+            if int(m.group(5)): ctx.fail('mixed_waiters_on_condvar', desc + ' mixed=%s' % m.group(5))
+        elif rc == 0: ctx.fail('sched_exit_nonzero', desc + ' (no scheduler report: pthread calls not routed?)')
+        if len(ctx.rr.samples) < 4: ctx.rr.samples.append(desc + ' ' + (m.group(0) if m else ''))
+    if ctx.thorough:
+        ok, tsan, err = build_tsan()
+        if ok:
+            for name in ('c4p', 'c5'):
+                for args in (['-1', '-T4', '-c', files[name][0]], ['-l', '-T3', '-c', files[name][0]]):
+                    rc, out, err = run(tsan, args, env={'TSAN_OPTIONS': 'exitcode=66'}); ctx.calls += 1; ctx.stat('tsan_runs')
+                    if b'ThreadSanitizer' in err or rc == 66: ctx.fail('tsan_data_race', ' '.join(args[:2]) + ' ' + err.decode(errors='replace')[:300].replace('\n', ' '))
+                    a = os.path.join(wd, 'tsan.lz4'); write_file(a, out)
+                    rc, out2, err = run(tsan, ['-dc', '-T4', a], env={'TSAN_OPTIONS': 'exitcode=66'}); ctx.calls += 1; ctx.stat('tsan_runs')
+                    if b'ThreadSanitizer' in err or rc == 66: ctx.fail('tsan_data_race', 'decode ' + err.decode(errors='replace')[:300].replace('\n', ' '))
+    for p, _ in files.values(): os.unlink(p)
+    return ctx.finish()
+
+STEPS = {'c04': check_c04, 'c14': check_c14, 'c15': check_c15, 'c13': check_c13}
